@@ -41,7 +41,41 @@ def demo(wt):
     return ok, out
 
 
+def recheck(sid, checks):
+    dest = os.path.join("/verif/seeded", sid)
+    meta = json.load(open(os.path.join(dest, "meta.json")))
+    checks = checks or [meta["property"]]
+    rc, out = sh(["git", "status", "--porcelain"], cwd="/repo")
+    if out.strip():
+        print("/repo not clean; refusing")
+        return 1
+    rc, out = sh(["git", "apply", os.path.join(dest, "patch.diff")], cwd="/repo")
+    if rc != 0:
+        print("patch does not apply to /repo:", out)
+        return 1
+    results = meta.get("checks_run", {})
+    try:
+        for c in checks:
+            rc, out = sh(["./check", c, "--tier", "quick"], cwd="/verif")
+            lines = [l for l in out.splitlines() if l.startswith(("VIOLATION", "OK", "KNOWN"))]
+            results[c] = {"exit": rc, "lines": lines}
+            print("%s check %s: exit %d %s" % (sid, c, rc, lines))
+            for l in lines:
+                if l.startswith("VIOLATION") and "replay=" in l:
+                    rp = l.split("replay=")[1].split()[0]
+                    if os.path.exists(rp):
+                        shutil.copy(rp, os.path.join(dest, "replay-%s.json" % c))
+    finally:
+        sh("git checkout -- .", cwd="/repo")
+    meta["checks_run"] = results
+    meta["caught_by"] = sorted(c for c, r in results.items() if r["exit"] != 0)
+    json.dump(meta, open(os.path.join(dest, "meta.json"), "w"), indent=1)
+    return 0
+
+
 def main():
+    if sys.argv[1] == "recheck":
+        return recheck(sys.argv[2], sys.argv[3:])
     _, cmd, wt, mdir, sid, prop, *checks = sys.argv
     checks = checks or [prop]
     patch = os.path.join(mdir, "patch.diff")
